@@ -13,6 +13,9 @@ import time
 sys.path.insert(0, os.path.dirname(os.path.abspath(__file__)))
 import common as C
 
+# pinned environment (explicit, not inherited); the check switches TZ itself per stream
+os.environ["TZ"] = "UTC"
+os.environ["PYTHONINTMAXSTRDIGITS"] = "4300"
 C.reexec_under_impl_python()
 import parse_common as PC
 
@@ -108,6 +111,8 @@ def year_as_number(t):
 
 
 PROVED_DETAIL = {
+    "C02_parse_render_word_utc": "{DD Mon YYYY, DD Month YYYY, Mon DD, YYYY, Month DD, YYYY} HH:MM[:SS] + Z / UTC / GMT, year >= 100, "
+                                 "name not in time.tzname (helper rdA)",
     "C02_parse_render_name_offset": "{DD Mon YYYY, DD Month YYYY} HH:MM[:SS] + {+,-}{HH:MM, HH, HHMM}, year >= 100 (helper rdA)",
     "C02_parse_render_comma_offset": "{Mon DD, YYYY; Month DD, YYYY} HH:MM[:SS] + {+,-}{HH:MM, HH, HHMM}, year >= 100 (helper rdA)",
     "C02_parse_render_us_offset": "MM/DD/YYYY{T, space}HH:MM[:SS] + {+,-}{HH:MM, HH, HHMM}, dayfirst = yearfirst = False (helper rdA)",
@@ -186,6 +191,24 @@ def theorem_for(t):
                 return "C02_parse_render_frac_" + D
             if D in ("DDMonY", "DDMonthY", "DDashMon", "DMonDY", "DMonthDY", "DEUDot", "DEU") and J == "JSpace":
                 return "C02_parse_render_frac_" + D
+    # ---- helper rdB, batch 3: time-only forms with zones, 12-hour clock after other date forms
+    if D == "DNone" and J == "JNone" and T in ("THM", "THMS"):
+        if O in ("OHH_MM", "OHH"):
+            return "C02_parse_render_time_offset_" + T
+        if O == "OHHMM":
+            return "C02_parse_render_time_offset4"
+        if O in ("OZ", "OUTC", "OGMT"):
+            return "C02_parse_render_time_utc_" + O
+    if O == "ONone" and J == "JSpace" and T in ("T12HM", "T12HMS"):
+        if D in ("DUS", "DSlashYMD"):
+            return "C02_parse_render_12h_%s_%s" % (D, T)
+        if D == "DMonthDY" and T == "T12HM":
+            return "C02_parse_render_12h_DMonthDY_T12HM_" + ("sp" if fl else "nosp")
+        if D == "DMonDY" and T == "T12HMS" and fl:
+            return "C02_parse_render_12h_DMonDY_T12HMS_sp"
+    if D in ("DDMonY", "DDMonthY", "DMonDY", "DMonthDY") and J == "JSpace" and T in ("THM", "THMS") \
+            and O in ("OZ", "OUTC", "OGMT"):
+        return "C02_parse_render_word_utc"
     # ---- helper rdA's families (coq/parse/RenderXOff*.v)
     if O in ("OHH_MM", "OHH", "OHHMM") and T in ("THM", "THMS"):
         if D in ("DDMonY", "DDMonthY") and J == "JSpace":
@@ -379,6 +402,7 @@ def main():
             if line.strip():
                 reg_cases.append(json.loads(line))
 
+    n_wf_first = 0
     for tzname in TZ_SETTINGS:
         PC.set_tz(tzname)
         r = C.rng("C02-" + tzname)
@@ -453,6 +477,14 @@ def main():
             wf_templates.add(tpl_name(t))
             tpl_thm[tpl_name(t)] = None
         model = PC.run_model(orc, [(c[0], c[1]) for c in cases])
+        # minimum stream size: under every TZ setting every template shape must have produced at least one
+        # round trip (a broken render entry / generator would otherwise give a green run with nothing tested)
+        got = set(tpl_name(c[2]) for c in cases)
+        n_wf_first = len(got) if tzname == TZ_SETTINGS[0] else n_wf_first
+        if len(cases) == 0 or len(got) < 1000 or len(got) != n_wf_first:
+            verdict.violation({"kind": "stream under TZ=%s produced %d round trips over %d templates (first TZ: %d): "
+                                       "generator or oracle entry 20/21 broken" % (tzname, len(cases), len(got), n_wf_first),
+                               "input": None}, concrete=False)
         for (o, s, t, dt, off, exp_dt, exp_off, tzn), mdl in zip(cases, model):
             n_eval += 1
             name = tpl_name(t)
@@ -516,9 +548,27 @@ def main():
         "input_distribution": hist,
         "templates_well_formed": len(wf_templates),
         "templates_status": {n: thm_status(th) for n, th in sorted(tpl_thm.items())},
-        "templates_proved_count": sum(1 for th in tpl_thm.values() if thm_status(th) != "tested-only"),
+        "templates_proved_count": sum(1 for th in tpl_thm.values()
+                                      if thm_status(th).endswith("[coq/props/C02.v]") or thm_status(th).endswith("[coq/props/C02x.v]")),
+        "templates_with_theorem_in_extension_file_not_compiled_in_this_run":
+            sum(1 for th in tpl_thm.values() if "not in this quick run" in thm_status(th)),
         "templates_proved_in_core_file_count": sum(1 for th in tpl_thm.values() if thm_status(th).endswith("[coq/props/C02.v]")),
         "templates_tested_only_count": sum(1 for th in tpl_thm.values() if thm_status(th) == "tested-only"),
+        "theorem_scope_notes": [
+            "every parse_render theorem fixes tzinfos = None, fuzzy = False and the flags of the template; d, the default, "
+            "ignoretz, the parserinfo year and time.tzname (loc) are universally quantified",
+            "PROCESS TIME ZONE: every theorem whose rendering ends in Z / UTC / GMT or a numeric offset assumes that the name "
+            "'UTC' (and 'GMT' where rendered) is NOT one of time.tzname: a zero offset and Z are named 'UTC' by the parser and "
+            "a name in time.tzname resolves through tz.tzlocal.  These theorems therefore apply under TZ settings such as "
+            "EST5EDT, and for non-zero offsets everywhere in effect, but NOT to Z / UTC / +00:00 under TZ=UTC (this harness's "
+            "default) or to ' GMT' under TZ=GMT0BST / Europe/London.  The local-name counterparts proved so far are "
+            "C02_parse_render_iso_local(_lz) and C02_parse_render_iso_z_local (ISO date-time + ' UTC' / ' GMT' / 'Z' with the name "
+            "in time.tzname: local zone, same utcoffset); all other zone templates under TZ=UTC / GMT0BST are covered by the "
+            "differential streams only (the check runs every template under UTC, EST5EDT and GMT0BST)",
+            "aware results: theorems give the zone object's kind and offset (ZUTC / ZOffset None secs / ZLocal); the check "
+            "compares utcoffset() of the returned tzinfo",
+            "theorem_for (template -> theorem) is maintained by hand next to the Coq `In ...` lists"],
+        "minimum_stream_sizes": "every TZ setting must produce round trips for every well-formed template, else violation",
         "extended_props": {"file": "coq/props/C02x.v", "theorems": len(ext_names),
                            "checked_in": "thorough tier and setup (props/*.vo are make targets)",
                            "compiled_in_this_run": ext_checked, "names": ext_names},
